@@ -14,6 +14,16 @@ const BASES: [&str; 16] = [
     "p5-Foo", "foo-", "-foo",
 ];
 
+/// Long bases (beyond any plausible fixed-size buffer or block-wise scan).
+fn long_base(r: &mut Rng) -> String {
+    let n = *r.pick(&[15usize, 16, 17, 31, 32, 33, 63, 64, 65, 127, 128, 129, 255, 256, 300]);
+    let mut s = String::new();
+    while s.len() < n {
+        s.push(*r.pick(&['a', 'b', 'x', '-', '1', '.', '_', 'Z', 'é']));
+    }
+    s
+}
+
 fn bound(r: &mut Rng) -> String {
     match r.below(12) {
         0 => String::new(),
@@ -209,10 +219,12 @@ pub fn run(cx: &mut Cx) {
         v
     };
 
-    let n = cx.per_shard(60, 5_000, 120_000, 1_500_000);
+    let n = cx.per_shard(60, 8_000, 640_000, 3_000_000);
     let mut r = cx.stream("generated");
     for _ in 0..n {
-        let base = if !corpus_bases.is_empty() && r.chance(1, 4) {
+        let base = if r.chance(1, 30) {
+            long_base(&mut r)
+        } else if !corpus_bases.is_empty() && r.chance(1, 4) {
             r.pick(&corpus_bases).clone()
         } else {
             r.pick(&BASES).to_string()
